@@ -743,7 +743,12 @@ pub fn run<'tcx>(tcx: TyCtxt<'tcx>) -> String {
         rn.ip.ident_pats = job.opts.get("identity").map(|s| s.split('|').map(|x| x.to_string()).collect()).unwrap_or_default();
         rn.ip.track_ret = job.opts.get("track_ret").map(|s| s.split('|').map(|x| x.to_string()).collect()).unwrap_or_default();
         rn.ip.loopcut = job.opts.get("loopcut").map(|s| s.split('|').filter_map(|x| x.rsplit_once(':').and_then(|(f, n)| Some((f.to_string(), n.parse::<u32>().ok()?)))).collect()).unwrap_or_default();
-        rn.ip.probe_pats = job.opts.get("probe").map(|s| s.split('|').map(|x| x.to_string()).collect()).unwrap_or_default();
+        let new_pats: Vec<String> = job.opts.get("probe").map(|s| s.split('|').map(|x| x.to_string()).collect()).unwrap_or_default();
+        if new_pats != rn.ip.probe_pats {
+            // memoised calls replay the probes recorded under the patterns of the job that created them
+            rn.ip.pmemo.clear();
+        }
+        rn.ip.probe_pats = new_pats;
         let steps0 = rn.ip.steps;
         let probes0 = rn.ip.probes.len();
         rn.ip.call_trace.clear();
